@@ -121,6 +121,43 @@ theorem without_retire_pass_current_dangles :
 example : let l : Listing := { current := [1, 2], merged := [0] }
     (∀ v, v ∈ l.current ++ l.merged → v ∈ [0, 1] ∨ v ∈ [2]) := by decide
 
+/-- **a version created at or after the cutoff is never removed**, whatever the shape of the
+    history (forks, merges, several writers), provided a version is created after the versions it
+    is made from — which holds since versions are dated when they are committed
+    (`versionsDatedAtCommit`; with the connection's open time, F52, a child could carry the same
+    time as its parent, or an older one) -/
+theorem created_at_or_after_cutoff_retained (g : VGraph) (cutoff : Int) (v : Nat)
+    (hmono : ∀ c p, c ∈ g.versions → p ∈ g.parents c → g.created p < g.created c)
+    (hv : cutoff ≤ g.created v) : removed F g cutoff v = false := by
+  have hF : F.versionCutoff = "childRoot.Created == nil || childRoot.Created.After(olderThan)" := rfl
+  unfold removed
+  cases hc : (g.children v) with
+  | nil => simp
+  | cons c cs =>
+    have hcm : c ∈ g.children v := by rw [hc]; exact List.mem_cons_self
+    have hc2 : c ∈ g.versions ∧ v ∈ g.parents c := by
+      simpa [VGraph.children, List.mem_filter] using hcm
+    have hlt := hmono c v hc2.1 hc2.2
+    have htn : tooNew F (g.created c) cutoff = some true := by
+      unfold tooNew
+      rw [if_pos hF]
+      simp only [Option.some.injEq, decide_eq_true_eq]
+      omega
+    simp [htn]
+
+/-- the current version — any version without a successor — is never removed -/
+theorem childless_version_retained (g : VGraph) (cutoff : Int) (v : Nat)
+    (h : g.children v = []) : removed F g cutoff v = false := by
+  simp [removed, h]
+
+/-- with the connection's open time as creation time (F52) the guarantee fails: versions 1 and 2
+    were committed by one connection opened at time 0, version 2 at (real) time 7 after the cutoff 5
+    — both carry time 0, and version 1's only child is "older than the cutoff" -/
+example :
+    let g : VGraph := { versions := [1, 2, 3], parents := fun c => if c = 3 then [2] else if c = 2 then [1] else [],
+                        created := fun _ => 0 }
+    removed F g 5 2 = true := by decide
+
 theorem vacuum_facts :
     F.vacuumKeepsReachable = true ∧ F.vacuumRefusesDirty = true ∧ F.vacuumFinishesRetire = true ∧
     F.vacuumKeepsListedCurrent = true ∧ F.vacuumWalksBypassCache = true ∧ F.versionsDatedAtCommit = true ∧ F.vacuumRepointsSnapshot = true ∧ F.deletedNodesLeaveCache = true ∧
